@@ -53,9 +53,8 @@ def quiet_logger():
 
 def make_pipeline(nodes: list[dict], *, trace=None, executor=None):
     from semantiva import Pipeline
-    from semantiva.execution.orchestrator.orchestrator import LocalSemantivaOrchestrator
-    from .executor import RecordingExecutor
-    orch = LocalSemantivaOrchestrator(executor or RecordingExecutor())
+    from .executor import RecordingExecutor, SvOrchestrator
+    orch = SvOrchestrator(executor or RecordingExecutor())
     return Pipeline(copy.deepcopy(nodes), logger=quiet_logger(), orchestrator=orch, trace=trace)
 
 
@@ -103,7 +102,6 @@ def run_scenario(sc: dict, w, *, trace_mode="file", detail="hash", pipeline=None
         p.trace = trace
     payload = make_payload(sc)
     pre_ctx = copy.deepcopy(sc.get("context", {}))
-    w.begin_run(name)
     out = outcome_of(lambda: p.process(payload))
     emissions = w.emissions[first_emission:]
     return {
@@ -216,3 +214,48 @@ def tz_offset_seconds(tz: str) -> int:
 
 TZS = ["UTC", "<+09>-9", "<-08>8", "<+0545>-5:45"]
 DETAILS = ["hash", "repr", "hash,repr,context", "all"]
+
+
+# ---------------------------------------------------------------- in-process CLI
+def write_cli_config(sc: dict, path: str = "cfg.yaml", *, trace: dict | None = None, run_space: dict | None = None,
+                     executor: bool = True, extra: dict | None = None, dump_kwargs: dict | None = None) -> str:
+    """Write a YAML configuration for `semantiva run/inspect` into the sandbox (cwd)."""
+    import yaml
+    cfg: dict[str, Any] = {"extensions": ["svsim.lib"], "pipeline": {"nodes": copy.deepcopy(sc["nodes"])}}
+    if executor:
+        cfg["execution"] = {"orchestrator": "SvOrchestrator", "executor": "SvRecordingExecutor"}
+    if trace is not None:
+        cfg["trace"] = trace
+    if run_space is not None:
+        cfg["run_space"] = copy.deepcopy(run_space)
+    if extra:
+        cfg.update(extra)
+    text = yaml.safe_dump(cfg, sort_keys=False, **(dump_kwargs or {}))
+    with open(path, "w") as f:
+        f.write(text)
+    return text
+
+
+def run_cli(argv: list[str]) -> dict:
+    """Run semantiva.cli.main(argv) in-process; returns exit code, stdout, stderr."""
+    import contextlib
+    import io as _io
+    from semantiva.cli import main
+    out, err = _io.StringIO(), _io.StringIO()
+    code: Any = None
+    exc = None
+    with contextlib.redirect_stdout(out), contextlib.redirect_stderr(err):
+        try:
+            main(list(argv))
+            code = 0
+        except SystemExit as e:
+            code = e.code if e.code is not None else 0
+        except BaseException as e:  # noqa: BLE001
+            exc = e
+            code = f"raised {type(e).__name__}: {e}"
+    return {"code": code, "stdout": out.getvalue(), "stderr": err.getvalue(), "exc": exc}
+
+
+def trace_cfg(mode: str, detail: str, name: str = "trace") -> dict:
+    path = f"{name}.ser.jsonl" if mode == "file" else f"{name}_dir"
+    return {"driver": "jsonl", "output_path": path, "options": {"detail": detail}}
